@@ -518,6 +518,18 @@ class SlurmScriptAdapter(SchedulerScriptAdapter):
             return State.RUNNING
         elif slurm_state == "PD" or slurm_state == "PENDING":
             return State.PENDING
+        elif slurm_state in ("CF", "CONFIGURING", "RQ", "REQUEUED",
+                             "RH", "REQUEUE_HOLD", "RF", "REQUEUE_FED",
+                             "RD", "RESV_DEL_HOLD", "SE", "SPECIAL_EXIT"):
+            # Waiting for resources / requeued: the job is still alive.
+            return State.PENDING
+        elif slurm_state in ("S", "SUSPENDED"):
+            # Suspended jobs keep their allocation and can be resumed.
+            return State.WAITING
+        elif slurm_state in ("RS", "RESIZING", "SI", "SIGNALING",
+                             "SO", "STAGE_OUT"):
+            # Transient states of a job that is still executing.
+            return State.RUNNING
         elif slurm_state == "CG" or slurm_state == "COMPLETING":
             # NOTE: this doesn't appear to show up with sacct, so maybe remove?
             return State.FINISHING
